@@ -82,6 +82,7 @@ def run(ctx):
                 got["dtw_cc.ub_euclidean"] = call(lambda: dtw_cc.ub_euclidean(s1, s2))
             got["distance(only_ub) python"] = call(lambda: dtw.distance(s1, s2, only_ub=True, **kw))
             got["distance(only_ub) C"] = call(lambda: dtw.distance_fast(s1, s2, only_ub=True, **kw))
+            got["distance(use_c, only_ub)"] = call(lambda: dtw.distance(s1, s2, only_ub=True, use_c=True, **kw))
         else:
             got["ed.distance(ndim)"] = call(lambda: ed.distance(s1, s2, inner_dist=inner, use_ndim=True))
             got["dtw_ndim.ub_euclidean"] = call(lambda: dtw_ndim.ub_euclidean(s1, s2, inner_dist=inner))
@@ -90,6 +91,7 @@ def run(ctx):
                 got["ed_cc.distance_ndim"] = call(lambda: ed_cc.distance_ndim(s1, s2, 0))
             got["distance(only_ub) python ndim"] = call(lambda: dtw_ndim.distance(s1, s2, only_ub=True, **kw))
             got["distance(only_ub) C ndim"] = call(lambda: dtw_ndim.distance_fast(s1, s2, only_ub=True, **kw))
+            got["distance(use_c, only_ub) ndim"] = call(lambda: dtw_ndim.distance(s1, s2, only_ub=True, use_c=True, **kw))
         for name, v in got.items():
             if not agree(v, exp_ed):
                 res.violations.append({"clause": "Euclidean bound: engines agree / only_ub returns it", "route": name,
